@@ -499,6 +499,39 @@ func (p *Prog) classifyState() []stateClass {
 						ok = true
 					}
 				}
+				// … or the complement of a flag the enclosing function set
+				// only where the saved value differed from it
+				if !ok {
+					par := fn.Parent()
+					var pss []execStore
+					for _, ps := range p.execStores(par) {
+						if ps.Field == f {
+							pss = append(pss, ps)
+						}
+					}
+					isSaveIn := func(l *ssa.UnOp) bool {
+						if l.Op != token.MUL || !p.wholeField(l.X) {
+							return false
+						}
+						lf, _ := p.execFieldOf(l.X)
+						if lf != f {
+							return false
+						}
+						for _, ps := range pss {
+							if !before(l, ps.At) {
+								return false
+							}
+						}
+						return true
+					}
+					for _, b := range par.Blocks {
+						for _, ins := range b.Instrs {
+							if mc, isMC := ins.(*ssa.MakeClosure); isMC && mc.Fn == ssa.Value(fn) && len(pss) > 0 && p.complementRestorer(par, mc, f, pss, isSaveIn) {
+								ok = true
+							}
+						}
+					}
+				}
 				if ok {
 					sc.Class, sc.OK, sc.Detail = "restorer-literal", true, "writes back the value of the field loaded by "+fn.Parent().Name()
 				} else {
@@ -603,7 +636,33 @@ func (p *Prog) classifyNamed(fn *ssa.Function, f *types.Var, ss []execStore, ent
 	if n := p.CG.Nodes[fn]; n != nil && len(n.In) > 0 {
 		all := true
 		for _, e := range n.In {
-			if !entry[e.Caller.Func] {
+			if entry[e.Caller.Func] {
+				continue
+			}
+			// … or an adapter that only the entry points call and that calls
+			// nothing of the Executor before this function
+			// (`execute`/`exists` in front of a shared `queryRoot`)
+			cn := p.CG.Nodes[e.Caller.Func]
+			viaAdapter := cn != nil && len(cn.In) > 0
+			if viaAdapter {
+				for _, e2 := range cn.In {
+					if !entry[e2.Caller.Func] {
+						viaAdapter = false
+					}
+				}
+				if site, ok := e.Site.(ssa.Instruction); ok {
+					for _, b := range e.Caller.Func.Blocks {
+						for _, ins := range b.Instrs {
+							if ci, ok := ins.(ssa.CallInstruction); ok && ins != site && isMethodOfExecutor(p, ci.Common().StaticCallee()) && !before(site, ins) {
+								viaAdapter = false
+							}
+						}
+					}
+				} else {
+					viaAdapter = false
+				}
+			}
+			if !viaAdapter {
 				all = false
 			}
 		}
@@ -661,12 +720,27 @@ func (p *Prog) classifyNamed(fn *ssa.Function, f *types.Var, ss []execStore, ent
 	rets := returnsOf(fn)
 	if len(rets) > 0 && fn.Signature.Results().Len() == 1 {
 		all := true
+		nclos := 0
 		for _, r := range rets {
+			// nothing to undo on a way out that did not touch the field
+			// (`if exec.f == val { return func() {} }`)
+			if isNoopFunc(r.Results[0]) {
+				untouched := true
+				for _, s := range ss {
+					if s.At.Block() == r.Instr.Block() || s.At.Block().Dominates(r.Instr.Block()) {
+						untouched = false
+					}
+				}
+				if untouched {
+					continue
+				}
+			}
 			mc, ok := r.Results[0].(*ssa.MakeClosure)
 			if !ok {
 				all = false
 				break
 			}
+			nclos++
 			good := false
 			for _, rs := range p.restorersOf(mc.Fn.(*ssa.Function)) {
 				if rs.Field == f && isSave(rs.Load) {
@@ -676,11 +750,14 @@ func (p *Prog) classifyNamed(fn *ssa.Function, f *types.Var, ss []execStore, ent
 			if !good && p.boundRestorer(fn, mc, f, isSave) {
 				good = true
 			}
+			if !good && p.complementRestorer(fn, mc, f, ss, isSave) {
+				good = true
+			}
 			if !good {
 				all = false
 			}
 		}
-		if all {
+		if all && nclos > 0 {
 			// every caller defers the result at once
 			bad := p.callersNotDeferring(fn)
 			if len(bad) == 0 {
@@ -797,10 +874,33 @@ func (p *Prog) callersNotDeferring(helper *ssa.Function) []string {
 // path from the call to every return of the enclosing function, and is used
 // for nothing else (explicit `restore := helper(); …; restore()`).
 func calledOnEveryExit(call *ssa.Call) bool {
+	// the values that stand for the restorer: the call itself, and a merge
+	// of it with a function that does nothing (`restore := func() {}; if c {
+	// restore = helper() }; …; restore()`)
+	vals := map[ssa.Value]bool{call: true}
 	for _, r := range *call.Referrers() {
-		c, ok := r.(*ssa.Call)
-		if !ok || c.Call.Value != ssa.Value(call) {
-			return false // stored, passed on, deferred conditionally …
+		switch x := r.(type) {
+		case *ssa.Call:
+			if x.Call.Value != ssa.Value(call) {
+				return false // passed on
+			}
+		case *ssa.Phi:
+			for _, e := range x.Edges {
+				if e != ssa.Value(call) && !isNoopFunc(e) {
+					return false
+				}
+			}
+			for _, pr := range *x.Referrers() {
+				if c, ok := pr.(*ssa.Call); !ok || c.Call.Value != ssa.Value(x) {
+					if _, dbg := pr.(*ssa.DebugRef); !dbg {
+						return false
+					}
+				}
+			}
+			vals[x] = true
+		case *ssa.DebugRef:
+		default:
+			return false // stored, deferred conditionally …
 		}
 	}
 	seen := map[*ssa.BasicBlock]bool{}
@@ -810,7 +910,7 @@ func calledOnEveryExit(call *ssa.Call) bool {
 		for i := from; i < len(b.Instrs); i++ {
 			switch x := b.Instrs[i].(type) {
 			case *ssa.Call:
-				if x.Call.Value == ssa.Value(call) {
+				if vals[x.Call.Value] {
 					return // restored on this path
 				}
 			case *ssa.Return:
@@ -1304,4 +1404,119 @@ func (p *Prog) isBoundRestorerMethod(m *ssa.Function, f *types.Var) bool {
 		}
 	}
 	return n > 0
+}
+
+// isNoopFunc: v is a function (or closure over one) whose body only returns.
+func isNoopFunc(v ssa.Value) bool {
+	if mc, ok := v.(*ssa.MakeClosure); ok {
+		v = mc.Fn
+	}
+	fn, ok := v.(*ssa.Function)
+	if !ok || len(fn.Blocks) != 1 || fn.Signature.Results().Len() != 0 {
+		return false
+	}
+	for _, ins := range fn.Blocks[0].Instrs {
+		switch ins.(type) {
+		case *ssa.Return, *ssa.DebugRef:
+		default:
+			return false
+		}
+	}
+	return true
+}
+
+// complementRestorer: the field is a bool, fn stores its bool parameter q into
+// it only where a saving load of the field was found to differ from q, and the
+// closure stores !q: for two truth values "differs from q" is "equals !q", so
+// the closure writes the saved value back.
+func (p *Prog) complementRestorer(fn *ssa.Function, mc *ssa.MakeClosure, f *types.Var, ss []execStore, isSave func(*ssa.UnOp) bool) bool {
+	if bt, ok := f.Type().Underlying().(*types.Basic); !ok || bt.Kind() != types.Bool {
+		return false
+	}
+	lit, ok := mc.Fn.(*ssa.Function)
+	if !ok || len(lit.Blocks) != 1 {
+		return false
+	}
+	// a parameter, or a load of the cell a captured parameter was spilled into
+	paramOf := func(v ssa.Value) *ssa.Parameter {
+		if q, ok := v.(*ssa.Parameter); ok {
+			return q
+		}
+		return spilledParam(v)
+	}
+	// the closure: one store into f, of the negation of a captured parameter of fn
+	var q *ssa.Parameter
+	n := 0
+	for _, st := range p.execStores(lit) {
+		if st.Field != f || st.Store == nil || !p.wholeField(st.Store.Addr) {
+			return false
+		}
+		n++
+		u, ok := st.Store.Val.(*ssa.UnOp)
+		if !ok || u.Op != token.NOT {
+			return false
+		}
+		x := u.X
+		if l, ok := x.(*ssa.UnOp); ok && l.Op == token.MUL {
+			x = l.X // captured by reference
+		}
+		fv, ok := x.(*ssa.FreeVar)
+		if !ok {
+			return false
+		}
+		for i, v := range lit.FreeVars {
+			if v != fv || i >= len(mc.Bindings) {
+				continue
+			}
+			switch b := mc.Bindings[i].(type) {
+			case *ssa.Parameter:
+				q = b
+			case *ssa.Alloc:
+				for _, r := range *b.Referrers() {
+					if stc, ok := r.(*ssa.Store); ok && stc.Addr == ssa.Value(b) {
+						if pq, ok := stc.Val.(*ssa.Parameter); ok {
+							q = pq
+						}
+					}
+				}
+				// the cell is written once, by the spill
+				nst := 0
+				for _, r := range *b.Referrers() {
+					if stc, ok := r.(*ssa.Store); ok && stc.Addr == ssa.Value(b) {
+						nst++
+					}
+				}
+				if nst != 1 {
+					return false
+				}
+			}
+		}
+	}
+	if n != 1 || q == nil || q.Parent() != fn {
+		return false
+	}
+	// fn: every store into f stores q, behind `saved == q` found false
+	for _, s := range ss {
+		if s.Store == nil || paramOf(s.Store.Val) != q {
+			return false
+		}
+		differs := false
+		for _, fa := range factsAt(s.At.Block()) {
+			bo, ok := fa.Cond.(*ssa.BinOp)
+			if !ok || (bo.Op != token.EQL && bo.Op != token.NEQ) || (bo.Op == token.EQL) == fa.Truth {
+				continue
+			}
+			x, y := bo.X, bo.Y
+			if paramOf(y) != q {
+				x, y = y, x
+			}
+			if l, ok := x.(*ssa.UnOp); ok && paramOf(y) == q && isSave(l) {
+				differs = true
+			}
+		}
+		if !differs {
+			return false
+		}
+	}
+	return len(ss) > 0
 }
